@@ -374,7 +374,10 @@ struct TodCase {
 }
 
 fn tod_case(_t: Tier) -> impl Strategy<Value = TodCase> {
-    (0i64..24, 0i64..60, 0i64..60, 0i64..1_000_000_000, dur_strategy()).prop_map(|(h, m, s, sub_ns, d)| TodCase { h, m, s, sub_ns, d })
+    // the ends of the day (first / last second, with and without a sub-second part) are drawn explicitly
+    let hms = prop_oneof![6 => (0i64..24, 0i64..60, 0i64..60), 1 => Just((23i64, 59i64, 59i64)), 1 => Just((0i64, 0i64, 0i64)), 1 => (Just(23i64), Just(59i64), 0i64..60), 1 => (Just(0i64), Just(0i64), 0i64..60)];
+    let sub = prop_oneof![5 => 0i64..1_000_000_000, 1 => Just(0i64), 1 => Just(999_999_999i64), 1 => Just(1i64)];
+    (hms, sub, dur_strategy()).prop_map(|((h, m, s), sub_ns, d)| TodCase { h, m, s, sub_ns, d })
 }
 
 fn check_tod(c: &TodCase, obs: &mut Obs) -> CheckResult {
